@@ -46,7 +46,11 @@ func (o *Obligation) Query() string { return o.QueryFor(o.Goal) }
 func (o *Obligation) QueryFor(goal string) string {
 	g := o.gen
 	var sb strings.Builder
-	sb.WriteString(smtPrelude)
+	pa := paddrOff
+	if g.eng.hasEscaping() {
+		pa = paddrOn
+	}
+	sb.WriteString(strings.Replace(smtPrelude, "@@PADDR@@", pa, 1))
 	for _, s := range g.eng.specs.Sorts {
 		fmt.Fprintf(&sb, "(declare-sort %s 0)\n", s)
 	}
